@@ -322,6 +322,18 @@ def run_shard(ctx):
                 check_case(ctx, {'lib': name, 'smiles': smi,
                                  'estimates': k % 10 == 0})
             i += 1
+        if name in ('BensonGA', 'PPY'):
+            # the two schemes with cis/trans corrections: every E/Z alkene
+            # over a substituent alphabet (seeded sample on the quick tier)
+            st = molecules.stereo_alkenes()
+            if q:
+                st = ctx.sub_rng('stereo', name).sample(st, 90)
+            for smi in st:
+                if ctx.mine(i):
+                    ctx.count('stereo_alkene_families')
+                    check_case(ctx, {'lib': name, 'smiles': smi,
+                                     'estimates': False})
+                i += 1
 
 
 def replay(ctx, case):
